@@ -3,7 +3,9 @@
 package t2s
 
 import (
+	"encoding/json"
 	"fmt"
+	"strconv"
 	"strings"
 
 	"github.com/cocosip/go-dicom-codecs/jpeg2000/t2"
@@ -274,7 +276,29 @@ func suiteParse(c *Ctx) {
 		kind  string
 	}
 	var jobs []job
-	n := c.N(2500, 50000)
+	n := c.N(2000, 30000)
+	// corpus / replay: the recorded model arguments are parsed back into a case
+	replaying := false
+	for _, raw := range append(c.CorpusInputs("t2:parse"), c.ReplayInputs("t2:parse")...) {
+		var a struct {
+			Bands, Presets, Steps string
+			Input                 *struct{ Bands, Presets, Steps string }
+		}
+		if json.Unmarshal(raw, &a) != nil {
+			continue
+		}
+		if a.Input != nil {
+			a.Bands, a.Presets, a.Steps = a.Input.Bands, a.Input.Presets, a.Input.Steps
+		}
+		if k, ok := parseCaseFromArgs(a.Bands, a.Presets, a.Steps); ok {
+			jobs = append(jobs, job{k, k.Steps, "replay"})
+		}
+	}
+	if c.ReplayInputs("t2:parse") != nil {
+		replaying = true
+		n = 0
+	}
+	_ = replaying
 	for i := 0; i < n; i++ {
 		if i%2 == 0 {
 			k := genParseCase(rng, i)
@@ -389,7 +413,7 @@ func suiteParse(c *Ctx) {
 		if cls == "panic" {
 			c.R.Fail("oracle", "t2:parse", "t2:parse:panic", pmsg, in)
 		}
-		c.CorrEq("t2:parse", "t2:parse:"+j.kind, c.M.Call("t2_hdr_dec", bands, presets, steps), impl, in)
+		c.CorrEq("t2:parse", "t2:parse:"+j.kind, mcall(c, "t2_hdr_dec", bands, presets, steps), impl, in)
 	})
 }
 
@@ -398,16 +422,41 @@ func suiteParse(c *Ctx) {
 
 func suiteParsePackets(c *Ctx) {
 	rng := c.Rng.Fork()
-	n := c.N(500, 10000)
+	n := c.N(600, 8000)
 	type job struct {
 		k                 pkCase
 		seed              uint64
 		strict, resilient bool
 	}
-	jobs := make([]job, n)
-	for i := range jobs {
-		jobs[i] = job{genPkCase(rng, i, 60), rng.U64(), rng.Intn(3) == 0, rng.Intn(3) == 0}
+	var jobs []job
+	for _, raw := range append(c.CorpusInputs("t2:parse:packets"), c.ReplayInputs("t2:parse:packets")...) {
+		var a struct {
+			Case              *pkCase `json:"case"`
+			JSeed             uint64  `json:"jseed"`
+			Strict, Resilient bool
+			Input             *struct {
+				Case              *pkCase `json:"case"`
+				JSeed             uint64  `json:"jseed"`
+				Strict, Resilient bool
+			}
+		}
+		if json.Unmarshal(raw, &a) != nil {
+			continue
+		}
+		if a.Input != nil {
+			a.Case, a.JSeed, a.Strict, a.Resilient = a.Input.Case, a.Input.JSeed, a.Input.Strict, a.Input.Resilient
+		}
+		if a.Case != nil {
+			jobs = append(jobs, job{*a.Case, a.JSeed, a.Strict, a.Resilient})
+		}
 	}
+	if c.ReplayInputs("t2:parse:packets") != nil {
+		n = 0
+	}
+	for i := 0; i < n; i++ {
+		jobs = append(jobs, job{genPkCase(rng, 3*i+1, 40), rng.U64(), rng.Intn(3) == 0, rng.Intn(3) == 0}) // index 3i+1: light class, all progressions
+	}
+	n = len(jobs)
 	ParallelFor(n, c.Work, func(i int) {
 		j := jobs[i]
 		k := j.k
@@ -454,14 +503,42 @@ func suiteParsePackets(c *Ctx) {
 				d[q] ^= byte(1 << uint(r.Intn(8)))
 			}
 		}
-		in := map[string]interface{}{"case": k, "kind": kind, "strict": j.strict, "resilient": j.resilient, "data": Hex(d)}
+		ordKind := "td_order"
+		if r.Intn(3) == 0 { // gatherCBData with a precinct order that does not fit the packets
+			ordKind = "damaged_order"
+			ms := NewRand(r.U64())
+			t.mutOrd = func(o map[int]map[int][]int) {
+				for res, m := range o {
+					for p, l := range m {
+						switch ms.Intn(6) {
+						case 0:
+							delete(m, p)
+						case 1:
+							if len(l) > 0 {
+								m[p] = l[:ms.Intn(len(l))]
+							}
+						case 2:
+							m[p] = append(l, ms.Range(0, 5))
+						case 3:
+							if len(l) > 1 {
+								l[0], l[len(l)-1] = l[len(l)-1], l[0]
+							}
+						}
+					}
+					if ms.Intn(12) == 0 {
+						delete(o, res)
+					}
+				}
+			}
+		}
+		in := map[string]interface{}{"case": k, "kind": kind, "order": ordKind, "jseed": j.seed, "strict": j.strict, "resilient": j.resilient, "data": clipArg(Hex(d))}
 		impl, pmsg, pd, _, tdOrder := t.decodeStr(d, j.strict, j.resilient)
 		cls := impl
 		if strings.HasPrefix(impl, "ok:") {
 			cls = "ok"
 		}
 		c.R.Case(fmt.Sprintf("parsepk:%+v:%s:%v:%v:%x", k, kind, j.strict, j.resilient, j.seed), len(t.blocks) >= 1 && len(d) >= 2,
-			"parsepk.kind."+kind, "parsepk.class."+cls, "progression="+progNames[k.Prog], fmt.Sprintf("parsepk.strict.%v.resilient.%v", j.strict, j.resilient))
+			"parsepk.kind."+kind, "parsepk.class."+cls, "parsepk.gather."+ordKind, "progression="+progNames[k.Prog], fmt.Sprintf("parsepk.strict.%v.resilient.%v", j.strict, j.resilient))
 		if i < 2 {
 			c.R.Sample(map[string]interface{}{"suite": "t2:parse:packets", "case": k, "kind": kind, "bytes": len(d)})
 		}
@@ -469,6 +546,93 @@ func suiteParsePackets(c *Ctx) {
 		if cls == "panic" {
 			c.R.Fail("oracle", "t2:parse:packets", "t2:packets:panic", pmsg, in)
 		}
-		c.CorrEq("t2:parse:packets", "t2:parse:packets:"+kind, t.modelDecode(c, d, j.strict, j.resilient, pd, tdOrder), impl, in)
+		if t.modelCheap(c, len(d)) {
+			c.CorrEq("t2:parse:packets", "t2:parse:packets:"+kind, t.modelDecode(c, d, j.strict, j.resilient, pd, tdOrder), impl, in)
+		} else {
+			c.R.Count("parsepk.corr_skipped_cost")
+		}
 	})
+}
+
+// parseCaseFromArgs parses the model arguments of t2_hdr_dec back into a case (replay).
+func parseCaseFromArgs(bands, presets, steps string) (parseCase, bool) {
+	k := parseCase{Kind: "replay"}
+	split := func(s, sep string) []string {
+		if s == "_" || s == "" {
+			return nil
+		}
+		return strings.Split(s, sep)
+	}
+	pairs := func(s string) [][2]int {
+		fl := ParseInts(s)
+		var out [][2]int
+		for i := 0; i+1 < len(fl); i += 2 {
+			out = append(out, [2]int{fl[i], fl[i+1]})
+		}
+		return out
+	}
+	dotq := func(s string) [][3]int {
+		var out [][3]int
+		for _, q := range split(s, "+") {
+			f := strings.Split(q, ".")
+			if len(f) != 3 {
+				continue
+			}
+			var t [3]int
+			for i := range t {
+				t[i], _ = strconv.Atoi(f[i])
+			}
+			out = append(out, t)
+		}
+		return out
+	}
+	pl := split(presets, "|")
+	for bi, b := range split(bands, "|") {
+		f := strings.Split(b, ":")
+		if len(f) != 2 {
+			return k, false
+		}
+		wh := ParseInts(f[0])
+		if len(wh) != 2 {
+			return k, false
+		}
+		k.Dims = append(k.Dims, [2]int{wh[0], wh[1]})
+		k.Positions = append(k.Positions, pairs(f[1]))
+		var sts []t2.VerifCBState
+		has := false
+		var tp *treePreset
+		if bi < len(pl) && pl[bi] != "-" {
+			for _, p := range strings.Split(pl[bi], "&") {
+				switch {
+				case strings.HasPrefix(p, "S="):
+					has = true
+					for _, e := range split(p[2:], ";") {
+						v := ParseInts(e)
+						if len(v) == 5 {
+							sts = append(sts, t2.VerifCBState{Included: v[0] != 0, FirstLayer: v[1], ZeroBitPlanes: v[2], NumPassesTotal: v[3], NumLenBits: v[4]})
+						}
+					}
+				case strings.HasPrefix(p, "T="):
+					f := strings.Split(p[2:], ",")
+					if len(f) == 6 {
+						tp = &treePreset{InclData: UnHex(f[2]), InclQ: dotq(f[3]), ZbpData: UnHex(f[4]), ZbpQ: dotq(f[5])}
+						tp.W, _ = strconv.Atoi(f[0])
+						tp.H, _ = strconv.Atoi(f[1])
+					}
+				}
+			}
+		}
+		k.States = append(k.States, sts)
+		k.HasStates = append(k.HasStates, has)
+		k.Trees = append(k.Trees, tp)
+	}
+	for _, st := range split(steps, "#") {
+		f := strings.Split(st, ",")
+		if len(f) != 3 {
+			return k, false
+		}
+		l, _ := strconv.Atoi(f[0])
+		k.Steps = append(k.Steps, parseStep{Layer: l, TermAll: f[1] == "1", Data: UnHex(f[2])})
+	}
+	return k, true
 }
